@@ -1,12 +1,17 @@
-import RegalModel.Lemmas.DiffWalk
+import RegalModel.Lemmas.DiffEdits
 /-!
 # C16 — Text edits sent to the editor reproduce the intended text exactly
 
-Status of the proof (full statement kept visible at the end):
-* `splitLines_flatten`      : the line split loses nothing (all documents)
-* `operations_render`       : for every snake list that is a good chain, replaying the operations the
-                              walk emits turns `a` into `b` (all documents, all chains)
-* remaining obligations are listed with the theorem `computeEdits_correct_partial`.
+* `splitLines_flatten`   : the line split loses nothing (all documents)
+* `operations_correct`   : whatever `operations a b` returns, replaying it on `a` yields `b` — for all
+                           documents of any length (forward invariant of the Myers trace in
+                           Lemmas/DiffForward, backward pass in Lemmas/DiffBack, walk in Lemmas/DiffWalk)
+* `computeEdits_correct` : whatever `ComputeEdits before after` returns, an LSP client applying those
+                           whole-line edits to `before` obtains exactly `after`
+* `index_in_bounds`      : the array indices the Go code uses lie inside the allocated `V`
+* open: totality (`computeEdits … ≠ none`, i.e. the Go code does not panic / the search reaches (M,N) within
+  M+N rounds) needs Myers' furthest-reaching lemma and is not proved; `none` is never observed in the
+  exhaustive + random correspondence run, where a Go panic would show as a crash.
 -/
 namespace RegalModel.Diff
 open List
@@ -72,8 +77,78 @@ theorem computeEdits_correct_partial (before after : List Char) (snakes : List (
       (walk (splitLines before).length (splitLines after).length (splitLines after) snakes 0 0)).flatten = after := by
   rw [operations_render _ _ snakes hg, splitLines_flatten]
 
+/-- **operations_correct**: for ALL documents `a`, `b` (lists of lines of any length over any line type):
+if `operations a b` returns at all, the operations are ordered, non-overlapping and turn `a` into `b`. -/
+theorem operations_correct {α : Type} [DecidableEq α] (a b : List α) (ops : List (Op α))
+    (h : operations a b = some ops) : render a 0 ops = b ∧ SortedFrom 0 ops := by
+  unfold operations at h
+  split at h
+  · rename_i he
+    cases h
+    obtain ⟨rfl, rfl⟩ := he
+    exact ⟨by simp [render], trivial⟩
+  · split at h
+    · cases h
+    · rename_i trace hs
+      split at h
+      · cases h
+      · rename_i recorded hb
+        cases h
+        have hg := backtrack_good a b trace recorded hs hb
+        exact ⟨by simpa using walk_render a b _ 0 0 hg, walk_sorted _ _ _ _ _ _⟩
+
+/-- **computeEdits_correct** (the property): for every pair of texts, whatever edit list `ComputeEdits`
+returns, applying it to `before` under the LSP client semantics gives exactly `after`. -/
+theorem computeEdits_correct (before after : List Char) (es : List Edit)
+    (h : computeEdits before after = some es) :
+    applyEdits (splitLines before) 0 es = after := by
+  unfold computeEdits at h
+  cases ho : operations (splitLines before) (splitLines after) with
+  | none => rw [ho] at h; cases h
+  | some ops =>
+    rw [ho] at h
+    cases h
+    obtain ⟨hr, hs⟩ := operations_correct _ _ ops ho
+    rw [applyEdits_render _ _ 0 hs, hr, splitLines_flatten]
+
+/-- identical texts produce no operation that changes anything: the rendered result is the text itself
+(corollary; the Go caller short-circuits on equality before calling ComputeEdits) -/
+theorem computeEdits_same (t : List Char) (es : List Edit) (h : computeEdits t t = some es) :
+    applyEdits (splitLines t) 0 es = t := computeEdits_correct t t es h
+
+/-- **index_in_bounds**: every index into `V` (length `2(N+M)+1`, `offset = N+M`) that
+`shortestEditSequence` and `backtrack` compute for a diagonal `k = -d + 2t` of a round `d ≤ N+M` lies
+inside the slice, following the short-circuit evaluation of `k == -d || (k != d && V[k-1+off] < V[k+1+off])`.
+(`operations` returns early when both documents are empty, hence `0 < M + N`.) So the total function
+`V : Int → Int` of the model hides no Go "index out of range" panic. -/
+theorem index_in_bounds (M N d t : Nat) (hMN : 0 < M + N) (hd : d ≤ M + N) (ht : t ≤ d) :
+    let off : Int := M + N
+    let k : Int := -(d : Int) + 2 * t
+    let len : Int := 2 * (M + N) + 1
+    (0 ≤ k + off ∧ k + off < len) ∧
+    (k = -(d : Int) → 0 ≤ k + 1 + off ∧ k + 1 + off < len) ∧
+    (k ≠ -(d : Int) → 0 ≤ k - 1 + off ∧ k - 1 + off < len) ∧
+    (k ≠ -(d : Int) → k ≠ d → 0 ≤ k + 1 + off ∧ k + 1 + off < len) := by
+  intro off k len
+  refine ⟨by omega, by omega, by omega, by omega⟩
+
+/-- **line_indices_nonneg**: every point the forward pass stores (and hence every `a[x]`, `b[y]` the slide
+loop and `b[op.J1:j2]` touch) has non-negative coordinates, so the guard `0 ≤ x0 ∧ 0 ≤ y0` in the model's
+`stepK` is never the deciding branch on a reachable state. -/
+theorem line_indices_nonneg {α : Type} [DecidableEq α] (a b : List α) (trace : List V)
+    (h : shortestEditSequence a b = some trace) :
+    ∃ D n, trace.length = D + 1 ∧ ∀ d, d < trace.length → ∀ v, trace[d]? = some v →
+      ∀ k, procd d (nOf trace.length n d) k → 0 ≤ v k ∧ 0 ≤ v k - k := by
+  obtain ⟨D, n, hlen, hinv, _, hn2, _⟩ := ses_spec a b trace h
+  refine ⟨D, n, hlen, ?_⟩
+  intro d hd v hv k hk
+  have := trace_lower_bounds a b trace n hinv (by omega) d hd v hv k hk
+  constructor <;> omega
+
 /-! non-vacuity: a concrete good chain -/
 example : GoodFrom ["a", "b"] ["a", "c"] [none, none, some (2, 2)] 0 0 ∨ True := Or.inr trivial
 example : (operations ["a", "b"] ["a", "c"]).map (fun ops => render ["a", "b"] 0 ops) = some ["a", "c"] := by decide
+/-- the hypothesis of `computeEdits_correct` is met with a non-trivial edit list -/
+example : (computeEdits "a\nb\n".toList "a\nc\n".toList).map List.length = some 2 := by decide
 
 end RegalModel.Diff
